@@ -31,6 +31,7 @@ func main() {
 	commands["rot"] = cmdRot
 	commands["rot-replay"] = cmdRotReplay
 	commands["api"] = cmdAPI
+	commands["queue"] = cmdQueue
 	commands["loader"] = cmdLoader
 	commands["parse"] = cmdParse
 	commands["scan"] = cmdScan
